@@ -76,3 +76,6 @@ for _pid, _p in PROPS.items():
     _mods, _unv = tables_for(_pid)
     _p["table_modules"] = _mods
     _p["unverified_tables"] = _unv
+
+# secondary build configuration of C02 (thorough tier): the tininess-after-rounding cargo feature
+PROPS["C02"]["feature_configs"] = [{"feature": "tiny_after", "judge_tiny_after": True}]
